@@ -29,6 +29,7 @@
 
 extern "C" int lltd_embedded_main(int argc, const char *argv[]);
 extern "C" void w2_set_link(void *thread_arg, uint32_t ifType, uint32_t linkSpeedBps, uint32_t mediumType);
+extern "C" const char *w2_iface_name(void *thread_arg);
 extern "C" {
 extern char __start_corebss[] __attribute__((weak));
 extern char __stop_corebss[] __attribute__((weak));
@@ -160,7 +161,7 @@ static W2Plan gen_w2(const std::string &prop, uint64_t vseed, uint64_t index) {
     // per-NIC histories
     for (int i = 0; i < nn; i++) {
         const NicCfg &n = p.nics[i];
-        uint64_t t = p.t0 + (p.family == 0 || r.chance(0.5) ? 10 : (uint64_t)r.range(0, 200)); // family 0: first frames at the same instant
+        uint64_t t = p.t0 + (p.family == 0 || r.chance(0.5) ? 10 : (uint64_t)r.range(5, 200)); // family 0: first frames at the same instant
         Mac m1 = st_mac(seed, 10 + i * 2), m2 = st_mac(seed, 11 + i * 2);
         int nf = (int)r.range(1, 10);
         uint16_t seq = (uint16_t)r.range(1, 60000);
@@ -186,6 +187,26 @@ static W2Plan gen_w2(const std::string &prop, uint64_t vseed, uint64_t index) {
             (void)active;
             p.evs.push_back(e);
             t += r.chance(0.6) ? (uint64_t)r.range(0, 3) : (uint64_t)r.range(3, 400);
+        }
+    }
+    if (prop == "C01") { // frames of any length and content through the daemon's own malloc(MTU) + recvfrom(..., MTU)
+        int extra = (int)r.range(3, 25);
+        for (int k = 0; k < extra; k++) {
+            W2Ev e;
+            e.nic = (int)r.below(p.nics.size()); e.t = p.t0 + (uint64_t)r.range(5, 600);
+            uint32_t mtu = p.nics[e.nic].mtu;
+            if (r.chance(0.5) && !p.evs.empty()) { // mutate a valid frame: truncate, pad to around the MTU, rewrite counters
+                e.frame = p.evs[r.below(p.evs.size())].frame;
+                if (r.chance(0.4) && !e.frame.empty()) e.frame.resize(r.below(e.frame.size() + 1));
+                if (r.chance(0.3)) e.frame.resize((size_t)((int64_t)mtu + r.range(-2, 200)), (uint8_t)r.next());
+                if (r.chance(0.5) && e.frame.size() >= 36) wire::put16(&e.frame[r.chance(0.5) ? 32 : 34], (uint16_t)r.pickl({0, 1, 0x7FFF, 0xFFFF, 300, (int64_t)(mtu - 34) / 14 + 1, (int64_t)(mtu - 36) / 6 + 1}));
+            } else {
+                e.frame.resize(r.chance(0.5) ? r.below(120) : r.below(mtu + 200));
+                for (auto &c : e.frame) c = (uint8_t)r.next();
+                if (e.frame.size() > 17 && r.chance(0.8)) { e.frame[12] = 0x88; e.frame[13] = 0xD9; e.frame[14] = 1; e.frame[15] = (uint8_t)r.below(3); e.frame[17] = (uint8_t)r.below(14); }
+            }
+            if (r.chance(0.05)) { e.kind = r.chance(0.5) ? EV_EINTR : EV_ZERO; e.frame.clear(); }
+            p.evs.push_back(e);
         }
     }
     if (prop == "C04") { // Linux port half: link attributes appear before a Discover
@@ -455,13 +476,21 @@ void *w2_realloc(void *p, size_t n) {
 char *w2_strdup(const char *s) { size_t n = strlen(s) + 1; char *p = (char *)led_alloc(n, false); if (p) memcpy(p, s, n); return p; }
 char *w2_getenv(const char *) { return nullptr; }
 sighandler_t w2_signal(int sig, sighandler_t h) { if (sig == SIGINT) g_sigint = h; return SIG_DFL; }
+static int g_last_lookup = -1, g_next_fd = 100;
 int w2_socket(int, int, int) {
-    for (auto &n : g_nic) if (n.fd == -1) { if (n.cfg.socket_fails) { n.fd = -2; g_probe["socket_fault_fired"]++; errno = EPERM; return -1; } n.fd = 100 + (int)(&n - &g_nic[0]); return n.fd; }
-    errno = EMFILE; return -1;
+    // the daemon looks the interface up by name right before it opens its socket
+    if (g_last_lookup >= 0 && g_nic[g_last_lookup].cfg.socket_fails) { g_probe["socket_fault_fired"]++; errno = EPERM; return -1; }
+    return g_next_fd++;
 }
-int w2_bind(int, const struct sockaddr *, socklen_t) { return 0; }
-int w2_close(int) { return 0; }
-unsigned int w2_if_nametoindex(const char *name) { for (size_t i = 0; i < g_nic.size(); i++) if (g_nic[i].cfg.name == name) return (unsigned)i + 1; return 0; }
+int w2_bind(int fd, const struct sockaddr *sa, socklen_t) {
+    const struct sockaddr_ll *ll = (const struct sockaddr_ll *)sa;
+    int idx = ll->sll_ifindex - 1;
+    if (idx < 0 || idx >= (int)g_nic.size()) { errno = ENODEV; return -1; }
+    g_nic[idx].fd = fd; // from now on frames of this NIC are readable on fd
+    return 0;
+}
+int w2_close(int fd) { for (auto &n : g_nic) if (n.fd == fd) { n.fd = -3; n.rxq.clear(); } return 0; }
+unsigned int w2_if_nametoindex(const char *name) { for (size_t i = 0; i < g_nic.size(); i++) if (g_nic[i].cfg.name == name) { g_last_lookup = (int)i; return (unsigned)i + 1; } return 0; }
 int w2_ioctl(int fd, unsigned long req, void *argp) {
     struct ifreq *ifr = (struct ifreq *)argp;
     NicRt *n = nullptr;
@@ -548,7 +577,7 @@ int w2_pthread_create(pthread_t *out, const pthread_attr_t *, void *(*fn)(void *
     if (me.id < 8) me.vc.c[me.id]++;
     *out = t->pt;
     // the argument is the embedded_interface_ctx_t of one NIC: remember it for link events
-    for (auto &n : g_nic) if (n.fd >= 0 && !n.thread_arg) { n.thread_arg = arg; break; }
+    { const char *nm = w2_iface_name(arg); for (auto &n : g_nic) if (nm && n.cfg.name == nm) n.thread_arg = arg; }
     yield_point(false);
     return 0;
 }
@@ -672,7 +701,7 @@ static void run_child(const W2Plan &p, int only_nic, int fd) {
 // ================================================================ parent side
 struct ChildRes { bool ok = false, crashed = false; uint64_t hash = 0; std::vector<std::pair<uint64_t, uint64_t>> nic; uint64_t recs = 0, ifs = 0; std::vector<std::string> races; std::vector<std::pair<std::string, std::string>> viol; std::map<std::string, uint64_t> probe; std::string crash_text; };
 static std::string g_tmp = "build/tmp";
-static ChildRes exec_child(const W2Plan &p, int only_nic) {
+static ChildRes exec_child_once(const W2Plan &p, int only_nic) {
     ChildRes r;
     int fd[2];
     if (pipe(fd) != 0) exit(2);
@@ -709,9 +738,20 @@ static ChildRes exec_child(const W2Plan &p, int only_nic) {
             else if (k == "VIOL") { std::string rest = line.substr(5); auto t = rest.find('\t'); r.viol.push_back({rest.substr(0, t), t == std::string::npos ? "" : rest.substr(t + 1)}); }
             else if (k == "PROBE") { std::string nme; uint64_t v; ls >> nme >> v; r.probe[nme] += v; }
         }
-    } else { r.crashed = true; r.crash_text = read_file(errf); }
+    } else { r.crashed = true; r.crash_text = read_file(errf) + "\n[wait status " + std::to_string(st) + ", " + std::to_string(buf.size()) + " result bytes]"; }
     unlink(errf.c_str());
     return r;
+}
+// A W2 run is deterministic by construction; a child that dies once and not again is an artefact of the host (fork under load),
+// never of the code under test.  Retry once, keep the evidence of the first attempt for inspection.
+static ChildRes exec_child(const W2Plan &p, int only_nic) {
+    ChildRes r = exec_child_once(p, only_nic);
+    if (!r.crashed) return r;
+    ChildRes r2 = exec_child_once(p, only_nic);
+    if (r2.crashed) return r2;
+    { std::ofstream f(g_tmp + "/../w2-transient.log", std::ios::app); f << "transient child failure, seed " << p.seed << ": " << r.crash_text.substr(0, 2000) << "\n"; }
+    r2.probe["transient_child_failures"]++;
+    return r2;
 }
 struct Verdict { std::string cls, detail; };
 static std::string crash_class(const std::string &txt, std::string &detail) {
@@ -739,7 +779,7 @@ static std::vector<Verdict> evaluate(const W2Plan &p, ChildRes *joint_out, std::
     for (auto &x : j.viol) {
         bool linux_half = x.first.compare(0, 6, "linux-") == 0;
         if (p.prop == "C04" && !linux_half) continue;
-        if (p.prop == "C17") continue; // wire-format clauses belong to the other checks
+        if (p.prop == "C17" || p.prop == "C01") continue; // wire-format clauses belong to the other checks
         v.push_back({p.prop + ":" + x.first, x.second});
     }
     if (p.prop == "C17") {
@@ -752,8 +792,17 @@ static std::vector<Verdict> evaluate(const W2Plan &p, ChildRes *joint_out, std::
             if (s.crashed || !s.ok || i >= j.nic.size() || i >= s.nic.size()) continue;
             if (j.nic[i].second || s.nic[i].second) { if (probes) (*probes)["nonempty_trace_compared"]++; }
             if (j.nic[i] != s.nic[i]) {
-                v.push_back({"C17:cross-talk-threaded", std::string("interface ") + p.nics[i].name + ": trace under the threaded schedule differs from the trace of its own history alone" +
-                                                            (lost ? " (lost interface state record: " + std::to_string(j.recs) + " records for " + std::to_string(j.ifs) + " interfaces)" : "")});
+                // is it explained by a pre-emption inside the unsynchronised list update?  Re-run the same histories with every frame
+                // handled atomically (threads switch only where they block): if the traces still differ, the race is not the cause.
+                W2Plan q = p;
+                q.p_call = 0; q.p_mem = 0; q.pct_thread = -1;
+                ChildRes a = exec_child(q, -1);
+                bool atomic_differs = a.ok && i < a.nic.size() && a.nic[i] != s.nic[i];
+                if (probes) (*probes)[atomic_differs ? "crosstalk_also_without_preemption" : "crosstalk_only_with_preemption"]++;
+                std::string why = atomic_differs ? " (also when every frame is handled atomically: not explained by thread pre-emption)"
+                                                 : (lost ? " (lost interface state record: " + std::to_string(j.recs) + " records for " + std::to_string(j.ifs) + " interfaces; traces agree when frames are handled atomically)"
+                                                         : " (only under pre-emption; no state record was lost)");
+                v.push_back({"C17:cross-talk-threaded", std::string("interface ") + p.nics[i].name + ": trace under the threaded schedule differs from the trace of its own history alone" + why});
                 break;
             }
         }
@@ -816,7 +865,7 @@ int main(int argc, char **argv) {
         return 1;
     }
     if (mode == "genplan") { printf("%s", w2plan_to_text(gen_w2(prop, vseed, max_runs)).c_str()); return 0; }
-    if (mode != "check" || prop.empty()) { fprintf(stderr, "usage: w2sim check <C04|C17|C18> ... | replay <file>\n"); return 2; }
+    if (mode != "check" || prop.empty()) { fprintf(stderr, "usage: w2sim check <C01|C04|C17|C18> ... | replay <file>\n"); return 2; }
     bool thorough = tier == "thorough";
     if (secs <= 0) secs = thorough ? 300 : 15;
     if (!max_runs) max_runs = 100000000ull;
